@@ -146,7 +146,13 @@ class SymK(KBase):
         self.arrays0: dict = {}
         self._keep: list = []
 
+    CONCRETE_EXTENTS = (70, 67, 73)  # bounded-shape fallback (see run_unit_sym): non-cubic, larger than any block size met
+
     def ext(self, name, lo=1):
+        if getattr(self, "concrete_ext", False):
+            v = max(int(lo), self.CONCRETE_EXTENTS[len(self.concrete_exts) % len(self.CONCRETE_EXTENTS)])
+            self.concrete_exts[name] = v
+            return v
         n = Sym.I(name)
         EXTENT_NAMES.add(name)
         ctx.assume(n >= lo)
@@ -472,7 +478,23 @@ def discharge(o: Obligation, timeout_ms=None, use_cvc5=True):
 
 
 def run_unit_sym(name, cfg, timeout_ms=None, want_props=None):
-    """-> list of result dicts (picklable)."""
+    """-> list of result dicts (picklable).  If the fully symbolic run leaves the engine's subset (e.g. the code
+    under contract loops over blocks of a symbolic extent), the unit is run once more with CONCRETE grid extents
+    (bounded shapes, all values): refutations found there are genuine counterexamples and are reported; proofs found
+    there are bounded and are NOT reported, so the unit stays undecided unless something is refuted."""
+    results, meta = _run_unit_sym(name, cfg, timeout_ms, want_props, concrete_ext=False)
+    if any(r["kind"] == "engine" and r["detail"].startswith("Unsupported") for r in results):
+        try:
+            more, _ = _run_unit_sym(name, cfg, timeout_ms, want_props, concrete_ext=True)
+        except BaseException as e:  # noqa: BLE001
+            if type(e).__name__ == "_UnitTimeout":
+                raise
+            more = []
+        results += [r for r in more if r["verdict"] == "refuted"]
+    return results, meta
+
+
+def _run_unit_sym(name, cfg, timeout_ms=None, want_props=None, concrete_ext=False):
     u = UNITS[name]
     results = []
     t_start = time.time()
@@ -482,6 +504,8 @@ def run_unit_sym(name, cfg, timeout_ms=None, want_props=None):
 
     def body():
         K = SymK(name, u["props"], cfg)
+        K.concrete_ext = concrete_ext
+        K.concrete_exts = {}
         state["K"] = K
         u["fn"](K, **cfg)
         return K
@@ -509,9 +533,13 @@ def run_unit_sym(name, cfg, timeout_ms=None, want_props=None):
                 # once a unit is refuted several times over, do not spend long solver budgets on its other clauses
                 hurry = sum(1 for x in results if x["verdict"] == "refuted") >= 3
                 r = discharge(o, 2000 if hurry else timeout_ms, use_cvc5=not hurry)
+                model = r.model
+                if concrete_ext and isinstance(model, dict):
+                    model = dict(K.concrete_exts, **model)  # the replay needs the extents of this bounded run
                 results.append(dict(name=o.name, props=list(o.props), kind=o.kind, verdict=r.verdict,
-                                    backend=r.backend, seconds=round(r.seconds, 4), model=r.model,
-                                    detail=(r.detail or o.note)[:2000], unit=name, cfg=cfg,
+                                    backend=r.backend, seconds=round(r.seconds, 4), model=model,
+                                    detail=(("[bounded-shape run, extents %s] " % K.concrete_exts) if concrete_ext else "")
+                                    + (r.detail or o.note)[:2000], unit=name, cfg=cfg,
                                     goal=str(o.goal)[:600] if r.verdict != "proved" else ""))
     except Unsupported as e:
         results.append(dict(name=f"{name}/engine[{cfg_str(cfg)}]", props=list(u["props"]), kind="engine",
